@@ -5,13 +5,29 @@ package main
 import (
 	"fmt"
 	"math"
+	"os"
 	"strings"
 
 	"gonum.org/v1/gonum/internal/verif/vlib"
+	"gonum.org/v1/gonum/internal/verif/vsync"
 	"gonum.org/v1/gonum/mat"
 )
 
 type tolFn func(i, j int) float64
+
+// failClass reports a triaged finding under its class name. For development the
+// environment variable C04_HIDE (comma separated class names) turns the listed
+// classes into counters so that the remaining output can be inspected; it is
+// never set by the driver.
+func failClass(t *vlib.T, class, format string, a ...any) {
+	for _, h := range strings.Split(os.Getenv("C04_HIDE"), ",") {
+		if h == class {
+			t.Count("hidden/"+class, 1)
+			return
+		}
+	}
+	t.FailClass(class, format, a...)
+}
 
 func dimMax(g *vlib.G) int { return vlib.Pick(g, 4, 6) }
 
@@ -28,8 +44,14 @@ func (v *verdict) add(s string) {
 	v.classes[s] = true
 }
 
+var lastPool struct{ reuses, news int }
+
 func (v *verdict) finish(t *vlib.T, prefix string) {
 	t.Count("calls", int64(v.calls))
+	// pool traffic of this case (vacuity guard for the pool seam)
+	t.Count("pool_workspaces_reused_after_scrub", int64(vsync.PoolStats.Reuses-lastPool.reuses))
+	t.Count("pool_workspaces_new", int64(vsync.PoolStats.News-lastPool.news))
+	lastPool.reuses, lastPool.news = vsync.PoolStats.Reuses, vsync.PoolStats.News
 	if v.calls > 0 {
 		t.Nontrivial()
 	}
@@ -52,9 +74,24 @@ func checkOperands(t *vlib.T, tag string, ops []*operand) {
 func judge(t *vlib.T, v *verdict, tag, state string, ops []*operand, do func(), check func() string) {
 	v.calls++
 	panicked, pv := mustPanic(do)
+	for _, o := range ops {
+		if o != nil && o.kind == "VecRawLong" && state != "wrong" {
+			// triaged: unit-increment fast paths hand the raw data slice (longer than N) to kernels that
+			// range over it; which methods are affected depends on the build (assembly or pure Go kernels).
+			if panicked {
+				failClass(t, "vecdense-unit-fastpath-uses-raw-data-length", "%s: panic %s (operand set with SetRawVector, len(Data) > N)", tag, panicString(pv))
+			} else if msg := check(); msg != "" {
+				failClass(t, "vecdense-unit-fastpath-uses-raw-data-length", "%s: %s", tag, msg)
+			} else {
+				v.add("ok")
+			}
+			checkOperands(t, tag, ops)
+			return
+		}
+	}
 	if state == "wrong" {
 		if !panicked {
-			t.FailClass("wrong-shaped-receiver-accepted", "%s: a non-empty receiver of the wrong shape was accepted without panic", tag)
+			failClass(t, "wrong-shaped-receiver-accepted", "%s: a non-empty receiver of the wrong shape was accepted without panic", tag)
 		} else {
 			v.panics++
 			v.add("panic:" + panicString(pv))
